@@ -471,6 +471,8 @@ def run_case(case):
                 _classify("quotient", lambda: c1.quotient_tactics(c2, None, simp, None if order is None else list(order)), IA, [c1, c2], out, dict(sub, op="quotient"))
         _classify("compose-keep", lambda: c1.compose(c2, [v.name for v in c1.outputvars]), IA, [c1, c2], out, {"op": "compose-keep"})
         _classify("compose-keep-bad", lambda: c1.compose(c2, ["nope"]), IA, [c1, c2], out, {"op": "compose-keep-bad"})
+        _classify("compose-keep-bad2", lambda: c1.compose(c2, ["nope", "nada", "i"]), IA, [c1, c2], out, {"op": "compose-keep-bad2"})
+        _classify("quotient-add-bad2", lambda: c1.quotient(c2, [Var("nope"), Var("nada")]), IA, [c1, c2], out, {"op": "quotient-add-bad2"})
         _classify("quotient-add", lambda: c1.quotient(c2, list(c2.outputvars)), IA, [c1, c2], out, {"op": "quotient-add"})
         _classify("merge", lambda: c1.merge(c2), IA, [c1, c2], out, {"op": "merge"})
         _classify("refines", lambda: c1.refines(c2), IA, [c1, c2], out, {"op": "refines"})
